@@ -177,25 +177,26 @@ func vcliC17Session(r *verifrt.R, c *verifrt.Case, simple bool) {
 	onWire := map[string]int{} // request tag -> number of streams that carried it
 	waitingSeen := map[string]bool{}
 	reachedLimit := false
+	s.OnNewConn = func(sc *vcliSrvConn) {
+		sc.HoldPings = p.HoldPings
+		sc.OnOpen = func(st *vcliStream) { // runs on the harness goroutine (Pump)
+			onWire[st.tag]++
+			fmt.Fprintf(sig, "|c%d:s%d:o%d", sc.Idx, st.id, st.openCntAtOpen)
+			if st.limitAtOpen != vcliUnlimited && int64(st.openCntAtOpen) == st.limitAtOpen-1 {
+				r.Event("headers_checked_at_limit_minus_one", 1)
+			}
+			if waitingSeen[st.tag] {
+				delete(waitingSeen, st.tag)
+				r.Event("waiting_request_started_after_slot_freed", 1)
+			}
+		}
+	}
 	greet := func() {
 		for _, sc := range s.Conns() {
 			ci := info[sc]
 			if ci == nil {
 				ci = &connInfo{curLimit: -1}
 				info[sc] = ci
-				sc.HoldPings = p.HoldPings
-				scc := sc
-				sc.OnOpen = func(st *vcliStream) {
-					onWire[st.tag]++
-					fmt.Fprintf(sig, "|c%d:s%d:o%d", scc.Idx, st.id, st.openCntAtOpen)
-					if st.limitAtOpen != vcliUnlimited && int64(st.openCntAtOpen) == st.limitAtOpen-1 {
-						r.Event("headers_checked_at_limit_minus_one", 1)
-					}
-					if waitingSeen[st.tag] {
-						delete(waitingSeen, st.tag)
-						r.Event("waiting_request_started_after_slot_freed", 1)
-					}
-				}
 			}
 			if !ci.greeted {
 				ci.greeted = true
@@ -281,7 +282,7 @@ func vcliC17Session(r *verifrt.R, c *verifrt.Case, simple bool) {
 						// happened since. The property statement does not promise that waiters start
 						// then, so this is recorded as an observation, not as a violation.
 						r.Event("observation_waiters_not_woken_by_limit_raise", 1)
-						if !noted {
+						if !noted && r.EventCount("observation_waiters_not_woken_by_limit_raise") <= 3 {
 							noted = true
 							r.Note("observation (not a C17 violation): %s/%d strict mode, %d request(s) still blocked at quiescence after a SETTINGS frame raised MAX_CONCURRENT_STREAMS to %s with %d streams open; processSettingsNoWrite does not Broadcast for SettingMaxConcurrentStreams, waiters start only at the next unrelated Broadcast", c.Stream, c.Index, len(w), vcliLim(sh.maxStreams), sh.openCount)
 						}
@@ -334,6 +335,12 @@ func vcliC17Session(r *verifrt.R, c *verifrt.Case, simple bool) {
 			for _, sc := range conns {
 				sc.HoldPings = false
 				sc.AnswerPings()
+				if step > p.Steps+5 && rng.IntN(3) == 0 {
+					// Requests blocked in awaitOpenSlotForStreamLocked are not woken by a SETTINGS
+					// frame that raises the limit (see the observation above); any frame that makes
+					// the client Broadcast lets the session finish.
+					sc.SendWindowUpdate(0, 1)
+				}
 				ci := info[sc]
 				if ci != nil && ci.curLimit >= 0 && ci.curLimit < 100 && rng.IntN(4) == 0 {
 					ci.curLimit = 100
@@ -358,6 +365,9 @@ func vcliC17Session(r *verifrt.R, c *verifrt.Case, simple bool) {
 		}
 		sc := conns[rng.IntN(len(conns))]
 		if p.Simple {
+			if sc.Sh.acks < 1 {
+				continue // first request dialed the connection; wait until the limit is acknowledged
+			}
 			if next < len(s.Reqs) {
 				for next < len(s.Reqs) {
 					startOne()
